@@ -348,10 +348,10 @@ def readFailureReason : Parser FailureReason := do
   if Gen.FailureCode_IsValid c then pure { endpoint := some a, code := c }
   else Parser.fail "invalid failure code"
 
-/-- `ReadReasonMap`: the count is an `[int]`; a negative count reaches `make` -/
+/-- `ReadReasonMap`: the count is an `[int]`; a negative count is refused -/
 def readReasonMap : Parser (List FailureReason) := do
   let n ← readInt
-  if isNeg32 n then Parser.panic "makeslice: len out of range (ReadReasonMap)"
+  if isNeg32 n then Parser.fail "invalid reason map length"
   else readN n readFailureReason
 
 def writeFailureReason (r : FailureReason) : Res Bytes := do
